@@ -99,6 +99,9 @@ pub struct Profile {
     pub mixed_markers: bool,
     /// per mille of worlds seeded with legacy-id orders
     pub legacy: u32,
+    /// per mille of legacy-seeded worlds that also carry an approved convertible ask whose
+    /// recorded approver amount exceeds its size (left behind by the published 1.0.0)
+    pub stale_asks: u32,
     /// per mille of worlds that reuse a denomination across roles
     pub reuse_denoms: u32,
     /// per mille of worlds with required attributes
@@ -120,6 +123,7 @@ pub fn profile(prop: Prop, thorough: bool) -> Profile {
         fees: 600,
         mixed_markers: false,
         legacy: 0,
+        stale_asks: 0,
         reuse_denoms: 50,
         attrs: 150,
         non_lot: 300,
@@ -207,7 +211,7 @@ pub fn profile(prop: Prop, thorough: bool) -> Profile {
             max_ops: if thorough { 60 } else { 30 },
             ..base
         },
-        Prop::C16 => Profile { legacy: 300, ..base },
+        Prop::C16 => Profile { legacy: 300, stale_asks: 400, ..base },
         Prop::C17 => Profile {
             kinds: [20, 20, 24, 4, 5, 4, 5, 8, 8, 8, 2],
             legacy: 100,
@@ -669,6 +673,24 @@ impl<'a> Interp<'a> {
         let mut out = vec![];
         if !gate(w[18], self.p.legacy) {
             return out;
+        }
+        if gate(w[18].rotate_left(11), self.p.stale_asks) && !cfg.convertibles.is_empty() && !cfg.approvers.is_empty() && cfg.convertibles[0] != cfg.base {
+            let size = cfg.increment.max(1) * (1 + (w[18] % 5) as u128);
+            out.push(Step::SeedAsk {
+                ask: Ask {
+                    id: "a1b2c3d4-0000-4000-8000-0000000fe001".into(),
+                    owner: POOL[pick(w[18].rotate_left(3), 8)].to_string(),
+                    class: AskClass::Ready {
+                        approver: cfg.approvers[0].clone(),
+                        denom: cfg.base.clone(),
+                        amount: size + cfg.increment.max(1) * (1 + (w[18] >> 8) as u128 % 3),
+                    },
+                    base: cfg.convertibles[0].clone(),
+                    quote: at(&cfg.quotes, 0, "quote1"),
+                    price: "1".into(),
+                    size,
+                },
+            });
         }
         let n = 1 + pick(w[18] << 4, 3);
         for i in 0..n {
